@@ -115,6 +115,28 @@ void TargetDepfile(const std::string& in) {
   }
 }
 
+// a depfile as ninja meets it: attached to a statement of a loaded manifest, read by the dependency scan while every
+// output exists (ImplicitDepLoader::LoadDepFile and what follows it, not only DepfileParser)
+void TargetDepfileLoad(const std::string& in) {
+  MemReader r;
+  r.files["build.ninja"] =
+      "rule cc\n  command = cc\n  depfile = out.d\nrule r\n  command = r\n"
+      "build out out2 | imp: cc in | hdr\nbuild hdr: r gen\nbuild final: r out a b\n";
+  r.files["out.d"] = in;
+  State state;
+  ManifestParser parser(&state, &r, ManifestParserOptions());
+  std::string err;
+  if (!parser.Load("build.ninja", &err)) return;
+  NullDisk disk; disk.r = &r;
+  DepfileParserOptions dopts;
+  DependencyScan scan(&state, nullptr, nullptr, &disk, &dopts, nullptr);
+  std::vector<Node*> validations;
+  Node* fin = state.LookupNode("final");
+  if (fin && scan.RecomputeDirty(fin, &validations, &err)) {
+    for (Edge* e : state.edges_) { e->EvaluateCommand(true); (void)e->inputs_.size(); }
+  }
+}
+
 void TargetDyndep(const std::string& in) {
   MemReader r;
   r.files["build.ninja"] =
@@ -254,7 +276,7 @@ void TargetEditDistance(const std::string& in) {
 typedef void (*Target)(const std::string&);
 struct TInfo { const char* name; Target fn; };
 const TInfo kTargets[] = {
-  {"manifest", TargetManifest}, {"depfile", TargetDepfile}, {"dyndep", TargetDyndep}, {"buildlog", TargetBuildLog},
+  {"manifest", TargetManifest}, {"depfile", TargetDepfile}, {"depfileload", TargetDepfileLoad}, {"dyndep", TargetDyndep}, {"buildlog", TargetBuildLog},
   {"depslog", TargetDepsLog}, {"clparser", TargetCLParser}, {"makeflags", TargetMakeflags}, {"status", TargetStatus},
   {"elide", TargetElide}, {"stripansi", TargetStripAnsi}, {"json", TargetJson}, {"canon", TargetCanon},
   {"editdistance", TargetEditDistance},
@@ -341,6 +363,8 @@ std::vector<std::string> Alphabet(const char* target) {
   if (t == "manifest" || t == "dyndep")
     return {"build", "rule", "pool", "default", "include", "subninja", "x", "y", " ", "\n", "\r\n", "\t", ":", "|", "||", "|@", "$", "=",
             "${x}", "$\n", std::string(1, '\0'), "command", "depth", "#", "build.ninja", "phony", "dyndep", "ninja_dyndep_version", "1", "$:", "$ "};
+  if (t == "depfileload")
+    return {"out", "out2", "imp", "in", "hdr", "a", "b", "x.h", " ", "\n", ":", "\\\n", "./", "//", "#", "$$", "\r\n", "final"};
   if (t == "depfile")
     return {"a", " ", "\\", "\n", "\r\n", ":", "#", "$", "$$", "%", "\\\n", std::string(1, '\0'), "\t", "\\ ", "\\#", "\\:", "*", "\xe9"};
   if (t == "buildlog")
